@@ -197,13 +197,15 @@ def resolve_idx(spec, domain, shape_dims=None):
         return range(int(lo), int(hi) + 1), [d for d in D if lo <= d <= hi]
     if t == "slice":
         hi = D[spec["b"] % m]
+        st = spec.get("step")  # None or k >= 2: every k-th index (net[::2])
+        on = (lambda d, lo_: (d - lo_) % st == 0) if st else (lambda d, lo_: True)
         if spec.get("a") is None:
-            return slice(0, int(hi) + 1), [d for d in D if 0 <= d <= hi]
+            return slice(None if st else 0, int(hi) + 1, st), [d for d in D if 0 <= d <= hi and on(d, 0)]
         lo = D[spec["a"] % m]
         lo, hi = min(lo, hi), max(lo, hi)
         if spec.get("open"):
-            return slice(int(lo), None), [d for d in D if d >= lo]
-        return slice(int(lo), int(hi) + 1), [d for d in D if lo <= d <= hi]
+            return slice(int(lo), None, st), [d for d in D if d >= lo and on(d, lo)]
+        return slice(int(lo), int(hi) + 1, st), [d for d in D if lo <= d <= hi and on(d, lo)]
     if t == "mask":
         contiguous = D == list(range(m))
         if contiguous and shape_dims is not None and m in shape_dims:
@@ -222,7 +224,7 @@ def jsonable_idx(ci):
     if isinstance(ci, range):
         return {"range": [ci.start, ci.stop]}
     if isinstance(ci, slice):
-        return {"slice": [ci.start, ci.stop]}
+        return {"slice": [ci.start, ci.stop] + ([ci.step] if ci.step else [])}
     return ci
 
 
